@@ -33,5 +33,30 @@ func deviationStage(p *core.Plan, tier string, r *rand.Rand) {
 					}
 				}
 			}
+			// several must / unique values handled by one deviate block: every sub-sequence the target
+			// states x every non-empty set the block names
+			pools := map[string][]string{"must": {"../sib = 'a'", "../sib != 'b'", "../sib = 'c'", "../sib = 'zz'"}, "unique": {"u1", "u2", "u3", "u4"}}
+			for _, prop := range []string{"must", "unique"} {
+				pool := pools[prop]
+				for hm := 0; hm < 8; hm++ {
+					var have []string
+					for i := 0; i < 3; i++ {
+						if hm&(1<<i) != 0 {
+							have = append(have, pool[i])
+						}
+					}
+					for vm := 1; vm < 16; vm++ {
+						var vals []string
+						for i := 0; i < 4; i++ {
+							if vm&(1<<i) != 0 {
+								vals = append(vals, pool[i])
+							}
+						}
+						for _, kind := range []string{"add", "delete"} {
+							emit(core.Case{"kind": "devm", "dkind": kind, "prop": prop, "have": have, "vals": vals})
+						}
+					}
+				}
+			}
 		}})
 }
